@@ -785,8 +785,13 @@ class Engine:
             return env[n]
         if n in self.repo.exc:
             return VExc((n,))
-        if n == "DEFAULT_DELIMITERS":
-            return VTuple([VStr(self.ctx.lit(x)) for x in ("#", "/", "_")])
+        if n in ("DEFAULT_DELIMITERS", "DEFAULT_DELIMS"):
+            # module constant ('#', '/', '_') (checked against the source by the discovery contracts' native runs)
+            out = None
+            for x in ("#", "/", "_"):
+                one = VList(Int(1), lambda i, x=x: VStr(self.ctx.lit(x)), "str")
+                out = one if out is None else concat_lists(self.ctx, out, one)
+            return out
         raise Unsupported(f"name {n}")
 
     def ev_Tuple(self, node, env, st):
@@ -1613,6 +1618,8 @@ class Engine:
             raise Unsupported("next over nested generators")
         g = gen.generators[0]
         xs = self.ev(g.iter, env, st)
+        if isinstance(xs, VOpt) and isinstance(xs.val, VList):
+            xs = xs.val
         if not isinstance(xs, VList):
             raise Unsupported("next over non-list")
 
@@ -1624,13 +1631,28 @@ class Engine:
         i = c.bvar("i", "Int")
         probe = cond_at(i)
         used = [b for b in c.bound if re.search(r"(?<![\w.!$])" + re.escape(b.s) + r"(?![\w.!$])", probe.s + " " + xs.n.s)]
-        sk = c.fun("nx", [b.sort for b in used], "Int")
+        # the same first-match expression (same list, same condition up to the names of bound variables) denotes the
+        # same index: reuse the Skolem function, otherwise facts about one evaluation do not transfer to the next
+        norm = probe.s + " @ " + xs.n.s
+        norm = norm.replace(i.s, "?i")
+        for k_, b in enumerate(used):
+            norm = norm.replace(b.s, f"?b{k_}")
+        norm = re.sub(r"b_\w+!\d+", "?q", norm)       # inner binders of the condition
+        cache = getattr(c, "next_cache", None)
+        if cache is None:
+            cache = c.next_cache = {}
+        key = (norm, tuple(b.sort for b in used))
+        first_use = key not in cache
+        if first_use:
+            cache[key] = c.fun("nx", [b.sort for b in used], "Int")
+        sk = cache[key]
         idx = app(sk, *used, sort="Int") if used else T(sk, "Int")
         j = c.bvar("j", "Int")
         rng = lambda t: And(Le(Int(0), t), Lt(t, xs.n))
         exists = Exists([i], And(rng(i), probe))
-        ax = Implies(exists, And(rng(idx), cond_at(idx), ForAll([j], Implies(And(Le(Int(0), j), Lt(j, idx)), Not(cond_at(j))))))
-        c.assumptions.append(ForAll(used, ax) if used else ax)
+        if first_use:
+            ax = Implies(exists, And(rng(idx), cond_at(idx), ForAll([j], Implies(And(Le(Int(0), j), Lt(j, idx)), Not(cond_at(j))))))
+            c.assumptions.append(ForAll(used, ax) if used else ax)
         env2 = dict(env)
         env2.update(self.bind_target(g.target, xs.at(idx)))
         if default is not None:
